@@ -528,6 +528,15 @@ PROPS["C13"]["required"] += ["SqlVerif.Props.C13Ddl.viewCol_local", "SqlVerif.Pr
                              "SqlVerif.Props.C13Ddl.view_columns_not_ad_hoc", "SqlVerif.Props.C13Ddl.add_column_not_local_before_with"]
 PROPS["C13"]["level_text"] += " For the second statement fragment (Model/Ddl.lean, stream ddl, run under C11/C05) all four lists are proved to BE parse_comma_separated lists (index columns, INCLUDE identifiers, view columns, ALTER TABLE operations: *_is_lists_model) - none is an ad-hoc loop; with the option on `CREATE VIEW v (a, FROM) AS ...` is rejected where the CREATE TABLE loop accepts `(a INT, FROM INT)` (view_columns_not_ad_hoc). Element locality and the trailing-comma / option-inert instances are proved for view columns outside ClickHouse and for the operations other than ADD; every view column and every operation (ADD coldef included) is repeated in front of `,` `)` `;` (viewCol_local_sep, alterOp_local_sep), and ADD is proved not to be local in front of a reserved word (add_column_not_local_before_with: `ADD a TIMESTAMP` in front of WITH)."
 
+PROPS["C13"]["lean"].append("SqlVerif.Props.C13Types")
+PROPS["C13"]["namespaces"].append("SqlVerif.Props.C13Types")
+PROPS["C13"]["required"] += ["SqlVerif.Props.C13Types.strVals_is_commaSep", "SqlVerif.Props.C13Types.enum_labels_is_lists_model",
+                             "SqlVerif.Props.C13Types.label_local", "SqlVerif.Props.C13Types.enum_labels_trailing_comma",
+                             "SqlVerif.Props.C13Types.enum_type_trailing_comma", "SqlVerif.Props.C13Types.enum_labels_option_inert",
+                             "SqlVerif.Props.C13Types.enum_labels_trailing_comma_off",
+                             "SqlVerif.Props.C13Types.enum_column_trailing_comma"]
+PROPS["C13"]["level_text"] += " Inside data types (Model/DataType.lean, streams dtparse / dml / ddl) the label list of ENUM(..) / SET(..) (parse_string_values) is proved to BE a parse_comma_separated list over single-string elements (strVals_is_commaSep, enum_labels_is_lists_model: answers and failures alike), a label is a local element, and the trailing-comma / option-inert instances hold without side conditions: with the option on `ENUM('a', 'b', )` and `ENUM('a', 'b')` are the same type (enum_type_trailing_comma), with it off the trailing comma is rejected (enum_labels_trailing_comma_off); enum_column_trailing_comma is the kernel-checked witness through the CREATE TABLE model."
+
 PROPS["C05"]["lean"].append("SqlVerif.Props.C05Ddl")
 PROPS["C05"]["namespaces"].append("SqlVerif.Props.C05Ddl")
 PROPS["C05"]["required"] += ["SqlVerif.Props.C05Ddl.ddl_content_preserved_partial", "SqlVerif.Props.C05Ddl.ddl_content_preserved_stmt",
